@@ -358,11 +358,12 @@ class PlanModel:
         return [(a.conds, a.beta) for a in alts]
 
 
-def run_action(instrs, beta, out_table, next_ts_val, unit_on_external=False):
+def run_action(instrs, beta, out_table, next_ts_val, unit_on_external=False, prims=None):
     """Symbolically run the action program on one binding. -> (extra conds, out tuple | None)"""
     env = dict(beta)
     conds = []
     out = None
+    prims = list(prims or [])  # kinds of the body's primitive atoms, in source order
 
     def ev(e):
         if "var" in e:
@@ -385,6 +386,21 @@ def run_action(instrs, beta, out_table, next_ts_val, unit_on_external=False):
                     env[ins["dst"]] = z3.FreshInt("outid")
             else:
                 raise ModelError("action writes table %r (only the Out table is modelled)" % ins["table"])
+        elif op == "External" and prims:
+            kind = prims.pop(0)
+            args = [ev(a) for a in ins["args"]]
+            if len(args) != 2:
+                raise ModelError("primitive with %d arguments" % len(args))
+            if kind == "lt":
+                conds.append(args[0] < args[1])
+                env[ins["dst"]] = z3.FreshInt("unit")
+            elif kind == "ne":
+                conds.append(args[0] != args[1])
+                env[ins["dst"]] = z3.FreshInt("unit")
+            elif kind == "add":
+                env[ins["dst"]] = args[0] + args[1]
+            else:
+                raise ModelError("unknown primitive kind %r" % kind)
         elif op == "ExternalWithFallback" and unit_on_external:
             # check_facts: the action only reports "some binding exists" through a callback
             if out is not None:
@@ -397,6 +413,8 @@ def run_action(instrs, beta, out_table, next_ts_val, unit_on_external=False):
             conds.append(ev(ins["l"]) != ev(ins["r"]))
         else:
             raise ModelError("action instruction %s is outside the model" % op)
+    if prims:
+        raise ModelError("the action program has fewer External instructions than the body has primitive atoms")
     return conds, out
 
 
@@ -405,7 +423,8 @@ def plan_tuples(plan_rec, tables, out_table, next_ts_val, mode="dnf", cands=None
     pm = PlanModel(plan_rec["plan"], tables, mode, cands)
     res = []
     for conds, beta in pm.outputs():
-        ac, out = run_action(plan_rec["instrs"], beta, out_table, next_ts_val, unit_on_external=(out_table is None))
+        ac, out = run_action(plan_rec["instrs"], beta, out_table, next_ts_val, unit_on_external=(out_table is None),
+                             prims=plan_rec.get("prims"))
         if out is None:
             raise ModelError("action does not write the Out table")
         res.append((z3.And(conds + ac) if (conds or ac) else z3.BoolVal(True), out))
@@ -416,7 +435,7 @@ def plan_tuples(plan_rec, tables, out_table, next_ts_val, mode="dnf", cands=None
 # source semantics
 
 
-def source_tuples(flat_atoms, out_vars, tables, include_subsumed=False):
+def source_tuples(flat_atoms, out_vars, tables, include_subsumed=False, prims=None):
     """flat_atoms: list of dict(table=tid, args=[('v',name)|('c',int)], ret=None|('v',name)|('c',int))
     -> list of (cond, tuple, ts_list) alternatives (one per row choice)."""
     alts = []
@@ -446,6 +465,22 @@ def source_tuples(flat_atoms, out_vars, tables, include_subsumed=False):
                         env[e[1]] = cols[pos]
         if not ok:
             continue
+        for pr in prims or []:
+            def pv(e):
+                return z3.IntVal(e[1]) if e[0] == "c" else env[e[1]]
+            a0, a1 = pv(pr["args"][0]), pv(pr["args"][1])
+            if pr["kind"] == "lt":
+                conds.append(a0 < a1)
+            elif pr["kind"] == "ne":
+                conds.append(a0 != a1)
+            else:
+                r = pr["ret"]
+                if r[0] == "c":
+                    conds.append(a0 + a1 == r[1])
+                elif r[1] in env:
+                    conds.append(env[r[1]] == a0 + a1)
+                else:
+                    env[r[1]] = a0 + a1
         tup = [env[v] for v in out_vars]
         cands = {}
         for a, i in zip(flat_atoms, combo):
